@@ -60,12 +60,14 @@ def family_notations():
         ('syn_second', 2, p.App(p.Symbol('second'), p.MetaVar(1)), 'second({0}, {1})'),
         ('syn_nest', 1, p.neg(p.App(p.MetaVar(0), p.EVar(0))), '~({0} @ x0)'),
         # defined THROUGH another notation with its parameters permuted / shifted (the inner node maps 0 -> phi1, 1 -> phi0)
+        # identity-like: an application expands to its argument, whatever that is (a bare variable, a symbol, ...)
+        ('syn_id', 1, p.MetaVar(0), 'id({0})'),
         ('syn_rand', 2, p._and(p.MetaVar(1), p.MetaVar(0)), '({0} rand {1})'),
         ('syn_shift', 3, p._or(p.MetaVar(1), p.MetaVar(2)), 'shift({0}; {1}, {2})'),
     ]
     for label, arity, d, fmt in syn:
         out[label] = (_cached_notation(label, arity, d, fmt), 'synthetic')
-    for name, n, cell in (('f', 0, False), ('g', 1, False), ('h', 2, False), ('k3', 3, False), ('cell', 2, True), ('c1', 1, True)):
+    for name, n, cell in (('f', 0, False), ('g', 1, False), ('h', 2, False), ('k3', 3, False), ('cell', 2, True), ('c1', 1, True), ('w17', 17, False), ('bigcell', 20, True)):
         out[f'nary_{name}_{n}'] = (k.nary_app(p.Symbol(name), n, cell), 'nary_app')
     return out
 
